@@ -128,8 +128,13 @@ Definition map_subs (s : state) (p : name) (f : domain -> domain) (r : gmap name
   : gmap name domain :=
   map_imap (fun n d => if visited s p n then Some (f d) else Some d) r.
 
-(* calculateExpiry / calculateRenewal / the on-sale branch: big.Int quotient narrowed by Int64() *)
-Definition blocks_for (amount perblock : Z) : Z := wrap64 (amount / perblock).
+(* blocksBought (calculateExpiry / calculateRenewal / the on-sale branch, /repo bd3d183): the
+   big.Int quotient; a count that does not fit int64 is refused (None) *)
+Definition blocks_bought (amount perblock : Z) : option Z :=
+  let q := amount / perblock in
+  if (- 2^63 <=? q) && (q <? 2^63) then Some q else None.
+(* expiryOverflows(from, extend): from > 0 && extend > math.MaxInt64 - from *)
+Definition expiry_overflows (from extend : Z) : bool := (0 <? from) && (2^63 - 1 - from <? extend).
 
 (* ---- handlers: None = (false, response), the session is discarded ---- *)
 
@@ -149,7 +154,12 @@ Definition run_create (e : env) (s : state) (owner : addr) (benef : option addr)
         | None => None
         | Some p => if bool_decide (d_owner p = owner) then Some (d_expiry p) else None
         end
-      else Some (wrap64 (e_v e + blocks_for (price - o_base o) (o_perblock o))) in
+      else
+        match blocks_bought (price - o_base o) (o_perblock o) with
+        | None => None
+        | Some extend =>
+          if expiry_overflows (e_v e) extend then None else Some (wrap64 (e_v e + extend))
+        end in
     match expiry with
     | None => None
     | Some x =>
@@ -216,19 +226,28 @@ Definition run_purchase (e : env) (s : state) (buyer : addr) (account : option a
           if negb (q <=? offer) then None else
           match debit (bal s) buyer q with
           | None => None
-          | Some b1 => Some (credit b1 (d_owner d) q, offer - q, blocks_for (offer - q) (o_perblock o))
+          | Some b1 =>
+            match blocks_bought (offer - q) (o_perblock o) with
+            | None => None
+            | Some extend => Some (credit b1 (d_owner d) q, offer - q, extend)
+            end
           end
         end
       else
         if offer <? o_base o then None
-        else Some (bal s, offer, blocks_for (offer - o_base o) (o_perblock o)) in
+        else
+          match blocks_bought (offer - o_base o) (o_perblock o) with
+          | None => None
+          | Some extend => Some (bal s, offer, extend)
+          end in
     match pay with
     | None => None
     | Some (b2, remain, extend) =>
+      let from := if e_v e <? d_expiry d then d_expiry d else e_v e in
+      if expiry_overflows from extend then None else
       match debit b2 buyer remain with
       | None => None
       | Some b3 =>
-        let from := if e_v e <? d_expiry d then d_expiry d else e_v e in
         let d' := {| d_owner := buyer; d_benef := account; d_created := d_created d;
                      d_updated := e_v e; d_expiry := wrap64 (from + extend); d_active := true;
                      d_onsale := false; d_price := None; d_uri := "" |} in
@@ -266,15 +285,16 @@ Definition run_renew (e : env) (s : state) (owner : addr) (n : name) (price : Z)
     if negb (is_changeable d (e_h e)) then None else
     if is_expired d (e_v e) then None else
     if negb (bool_decide (d_owner d = owner)) then None else
-    match debit (bal s) owner price with
-    | None => None
-    | Some b1 =>
-      let x := wrap64 (d_expiry d + blocks_for price (o_perblock o)) in
+    match debit (bal s) owner price, blocks_bought price (o_perblock o) with
+    | Some b1, Some extend =>
+      if expiry_overflows (d_expiry d) extend then None else
+      let x := wrap64 (d_expiry d + extend) in
       let d' := {| d_owner := d_owner d; d_benef := d_benef d; d_created := d_created d;
                    d_updated := e_h e; d_expiry := x; d_active := d_active d;
                    d_onsale := d_onsale d; d_price := d_price d; d_uri := d_uri d |} in
       Some {| reg := <[n := d']> (map_subs s n (set_expiry x) (reg s)); snap := snap s;
               bal := b1; pool := pool s + price |}
+    | _, _ => None
     end
   end.
 
